@@ -142,7 +142,7 @@ pub fn run(prop: &str, tier: &str, replay: Option<&str>) -> i32 {
     let keys = Keys { zoo: &zoo };
     let cap = if thorough { 1100 } else { 50 };
     let at = atoms();
-    let kids = [KeyIdSpec::Sha256, KeyIdSpec::Sha384, KeyIdSpec::Sha512, KeyIdSpec::Pre(vec![0xca, 0xfe, 0x01])];
+    let kids = [KeyIdSpec::Sha256, KeyIdSpec::Sha384, KeyIdSpec::Sha512, KeyIdSpec::Pre(vec![0xca, 0xfe, 0x01]), KeyIdSpec::Pre((0..32u8).map(|i| 0xff - i).collect()), KeyIdSpec::Pre((0..21u8).collect())];
     let ca_z = keys.get(KeyKind::Ed25519, "_1");
     let leaf_z = keys.get(KeyKind::Ed25519, "_2");
     let ca_kp = rc_load(ca_z, Alg::Ed25519).unwrap();
@@ -342,15 +342,21 @@ pub fn run(prop: &str, tier: &str, replay: Option<&str>) -> i32 {
                 }
             }
         }
-        let cases: Vec<(usize, bool)> = (0..names.len()).flat_map(|i| [(i, true), (i, false)]).collect();
+        // subject key identifier of the foreign CA: absent, 20 bytes, 32 bytes for every name; other lengths for the first names
+        let mut cases: Vec<(usize, usize)> = (0..names.len()).flat_map(|i| [(i, 20usize), (i, 0), (i, 32)]).collect();
+        for i in 0..names.len().min(8) {
+            for l in [1usize, 19, 21, 33, 48, 64, 127, 128] {
+                cases.push((i, l));
+            }
+        }
         let signer = ossl_signer(ca_z.pkey.clone(), Alg::Ed25519);
-        let sec = Section::new("imported-issuers/reference-built CA", "foreign CA certificates built with the reference DER writer for every name (<= 2, thorough 3 RDNs over 36 atoms incl. repeated types; multi-valued RDNs; empty), with and without SKI, signed by a fixture key; imported (DER and PEM), re-issued, leaf judged against the ORIGINAL CA bytes").with_deadline(cap);
+        let sec = Section::new("imported-issuers/reference-built CA", "foreign CA certificates built with the reference DER writer for every name (<= 2, thorough 3 RDNs over 36 atoms incl. repeated types; multi-valued RDNs; empty), without SKI and with SKIs of 20 and 32 bytes (first names: 1..128 bytes), signed by a fixture key; imported (DER and PEM), re-issued, leaf judged against the ORIGINAL CA bytes").with_deadline(cap);
         run::sweep_cases(&sec, &cases, &|c| format!("CA subject [{}] ski={}", names[c.0].label(), c.1), &|c| {
             let mut out = Outcome::default();
             let name = &names[c.0];
-            let ski: Vec<u8> = ossl_sha(256, &ca_z.spki)[..20].to_vec();
+            let ski: Vec<u8> = ossl_sha(512, &ca_z.spki).iter().cycle().take(c.1).cloned().collect();
             let mut exts = vec![RefExt::new(OID_BC, true, ext_bc(true, None, false)), RefExt::new(OID_KU, true, ext_ku(ku_bits(&[5, 6]), None))];
-            if c.1 {
+            if c.1 > 0 {
                 exts.push(RefExt::new(OID_SKI, false, ext_ski(&ski)));
             }
             let rc = RefCert { version: Some(2), serial: vec![0x77], sig_alg: Alg::Ed25519.sig_alg_der().to_vec(), issuer: name.abs(), not_before: TimeSpec::ymd(2000, 1, 1).unix, not_after: TimeSpec::ymd(2100, 1, 1).unix, subject: name.abs(), spki: ca_z.spki.clone(), exts };
@@ -389,9 +395,9 @@ pub fn run(prop: &str, tier: &str, replay: Option<&str>) -> i32 {
             out.transitions += 36;
             match r {
                 Ok(Ok((leaf_der, leaf2_der))) => {
-                    judge_chain(&leaf_der, &ca_der, c.1, true, true, &mut f);
+                    judge_chain(&leaf_der, &ca_der, c.1 > 0, true, true, &mut f);
                     let mut f2 = Vec::new();
-                    judge_chain(&leaf2_der, &ca_der, c.1, true, true, &mut f2);
+                    judge_chain(&leaf2_der, &ca_der, c.1 > 0, true, true, &mut f2);
                     f.extend(f2.into_iter().map(|mut x| {
                         x.locus = format!("{} (issued from a parsed CSR)", x.locus);
                         x
